@@ -892,6 +892,105 @@ static void eval_c08(const Plan &p, Verdict &v, Agg *agg) {
 }
 
 // ================================================================================================
+// Scenario: C18 allocation failure: for every k, the k-th allocation of the run fails
+// ================================================================================================
+
+void (*g_progress_note)(uint64_t sub) = nullptr;   // lets the run loop record which k is being executed (crash attribution)
+
+static void c18_plan(Rng &rng, Plan &p) {
+    // corpus entry: a short history that exercises several subsystems at once
+    p.prop = "C18"; p.scenario = "allocfail";
+    random_cfg(rng, p.cfg, false);
+    p.cfg.set("urlenc", 1); p.cfg.set("mpart", 1); p.cfg.set("cookies", 1); p.cfg.set("auth", 1);
+    if (rng.coin()) p.cfg.set("extract_files", 1);
+    if (rng.coin()) p.cfg.set("req_decomp", 1);
+    p.cfg.kv.erase("max_tx");
+    p.conns.resize(1);
+    ConnPlan &cp = p.conns[0];
+    std::vector<Op> ops;
+    int src = (int) rng.below(10);
+    if (src < 3) { conn_from_capture(rng, cp, ops, 0, true); }
+    else if (src < 5) { Script s = connect_script(rng, 0); build_conn_from_script(rng, s, cp, false); }
+    else if (src < 7) {
+        // compressed response, two layers or lzma now and then
+        Script s; MsgSpec q; q.method = "GET"; q.target = "/id0/c18?a=b&c=%64"; { HeaderSpec h; h.name = "Host"; h.value = "c18.example"; q.headers.push_back(h); }
+        { HeaderSpec h; h.name = "Cookie"; h.value = "a=b; c=d"; q.headers.push_back(h); } { HeaderSpec h; h.name = "Authorization"; h.value = rng.coin() ? "Basic dXNlcjpwYXNz" : "Digest username=\"u\""; q.headers.push_back(h); }
+        MsgSpec r; r.is_request = false; r.status = 200; r.reason = "OK"; Bytes payload; size_t n = (size_t) rng.range(1, 20000); for (size_t i = 0; i < n; i++) payload.push_back((char) ('a' + rng.below(3)));
+        int c = (int) rng.below(4); std::string ce;
+        if (c == 0) { r.body = z_encode(payload, 31, 6, 0); ce = "gzip"; } else if (c == 1) { r.body = z_encode(payload, -15, 6, 0); ce = "deflate"; }
+        else if (c == 2) { r.body = lzma_alone_encode(payload, 1u << 16); ce = "lzma"; } else { r.body = z_encode(z_encode(payload, 31, 6, 0), 31, 6, 0); ce = "gzip, gzip"; }
+        r.payload = payload; { HeaderSpec h; h.name = "Content-Encoding"; h.value = ce; r.headers.push_back(h); } r.framing = FR_CL; { HeaderSpec h; h.name = "Content-Length"; h.value = strfmt("%zu", r.body.size()); r.headers.push_back(h); }
+        s.req.push_back(q); s.res.push_back(r); build_conn_from_script(rng, s, cp, false);
+    } else if (src < 8) {
+        // multipart upload with a file part (file extraction exercises the file layer under memory pressure)
+        Bytes ct, body; std::vector<PartSpec> parts; bool lf; c14_build(rng, ct, body, parts, lf);
+        Script s; MsgSpec q; q.method = "POST"; q.target = "/id0/c18"; { HeaderSpec h; h.name = "Host"; h.value = "c18.example"; q.headers.push_back(h); } { HeaderSpec h; h.name = "Content-Type"; h.value = ct; q.headers.push_back(h); }
+        q.framing = FR_CL; q.body = q.payload = body; { HeaderSpec h; h.name = "Content-Length"; h.value = strfmt("%zu", body.size()); q.headers.push_back(h); }
+        MsgSpec r; r.is_request = false; r.status = 200; r.reason = "OK"; r.framing = FR_CL; { HeaderSpec h; h.name = "Content-Length"; h.value = "0"; r.headers.push_back(h); }
+        s.req.push_back(q); s.res.push_back(r); build_conn_from_script(rng, s, cp, false);
+    } else { GenFeatures f; Script s = random_script(rng, f, (int) rng.range(1, 5), 0); build_conn_from_script(rng, s, cp, false); }
+    for (auto &x : cp.xchg) x.expect.clear();
+    if (ops.empty() || rng.coin()) {
+        ops.clear();
+        std::vector<Extent> m0, m1; for (auto &x : cp.xchg) { m0.push_back(x.req); m1.push_back(x.res); }
+        static const size_t MEANS[] = {3, 8, 16, 64, 512, 4096};
+        auto c0 = choose_cuts(rng, cp.stream[0], m0, (int) rng.below(ST_ONECUT), MEANS[rng.below(6)]);
+        auto c1 = choose_cuts(rng, cp.stream[1], m1, (int) rng.below(ST_ONECUT), MEANS[rng.below(6)]);
+        interleave_ops(rng, cp, 0, c0, c1, 60, !cp.xchg.empty(), false, ops);
+    }
+    if (ops.size() > 400) { // keep histories short: K allocations x K executions is the cost
+        std::vector<Extent> m0, m1; for (auto &x : cp.xchg) { m0.push_back(x.req); m1.push_back(x.res); }
+        ops.clear(); auto c0 = choose_cuts(rng, cp.stream[0], m0, ST_UNIFORM, 512), c1 = choose_cuts(rng, cp.stream[1], m1, ST_UNIFORM, 512);
+        interleave_ops(rng, cp, 0, c0, c1, 60, !cp.xchg.empty(), false, ops);
+    }
+    p.ops = ops;
+    if (rng.chance(1, 6)) { Op op; op.kind = rng.coin() ? 'q' : 's'; op.n = (long) rng.range(1, 50); p.ops.insert(p.ops.begin() + (long) rng.below(p.ops.size() + 1), op); }
+    if (rng.chance(1, 4)) { Op op; op.kind = 'C'; p.ops.insert(p.ops.begin() + (long) rng.below(p.ops.size() + 1), op); }
+    if (rng.chance(1, 8)) { Op op; op.kind = 'D'; p.ops.insert(p.ops.begin() + (long) rng.below(p.ops.size() + 1), op); }
+    if (rng.chance(1, 5)) { CbFault cf; cf.hook = HK_REQUEST_HEADERS; cf.nth = 1; cf.action = CB_REG_TX_HOOKS; p.cbs.push_back(cf); }
+    if (rng.chance(1, 8)) p.cfg.set("disposal", (long) rng.range(2, 3));
+}
+
+static bool c18_one(const Plan &q, Verdict &v, Agg *agg, RunResult &r) {
+    execute_plan(q, r); v.executions++;
+    if (agg) agg->add_run(r);
+    for (auto &x : r.viol) {
+        if (x.prop == "C01" || x.prop == "C18" || x.prop == "C09") {
+            // leaks under an injected failure are not promised away by the statement; everything else is
+            if (x.oracle == "C01.leak") continue;
+            v.violated = true; v.oracle = x.prop == "C18" ? x.oracle : "C18.via." + x.oracle; v.detail = strfmt("k=%ld%s: %s", q.alloc_fail_at, q.alloc_sustained ? " (sustained)" : "", x.detail.c_str());
+            return false;
+        }
+    }
+    return true;
+}
+
+static void eval_c18(const Plan &p, Verdict &v, Agg *agg) {
+    if (p.alloc_fail_at) {   // a concrete (history, k) pair: replay of a violation
+        RunResult r; c18_one(p, v, agg, r); v.sig = r.behaviour_sig; v.hash = r.hash; v.nontrivial = r.alloc_failed > 0; return;
+    }
+    RunResult base; execute_plan(p, base); v.executions++; if (agg) agg->add_run(base);
+    uint64_t K = base.total_allocs;
+    v.sig = base.behaviour_sig; v.hash = base.hash; v.nontrivial = K > 0;
+    bool thorough = getenv("VERIF_TIER") && !strcmp(getenv("VERIF_TIER"), "thorough");
+    uint64_t step = 1; if (!thorough && K > 1200) step = (K + 1199) / 1200;
+    std::set<uintptr_t> sites;
+    for (uint64_t k = 1; k <= K; k += step) {
+        if (g_progress_note) g_progress_note(k);
+        Plan q = p; q.alloc_fail_at = (long) k;
+        RunResult r; if (!c18_one(q, v, agg, r)) { if (agg) agg->inc("c18.failing_k"); return; }
+        if (r.alloc_failed) { if (agg) agg->inc("c18.k_reached"); sites.insert(r.fail_site); }
+        if ((thorough || (k % 7) == 0) && k + 1 <= K) {   // sustained pressure: every allocation from k on fails
+            if (g_progress_note) g_progress_note(k | (1ULL << 40));
+            q.alloc_sustained = 1; RunResult r2; if (!c18_one(q, v, agg, r2)) return;
+            if (agg) agg->inc("c18.sustained_runs");
+        }
+    }
+    if (g_progress_note) g_progress_note(0);
+    if (agg) { agg->inc("c18.histories"); agg->inc("c18.allocations_enumerated", K / step); for (uintptr_t s : sites) agg->c[strfmt("c18.site.0x%lx", (unsigned long) s)] += 1; }
+}
+
+// ================================================================================================
 // Scenario: C11 ambiguity indicators (trigger applied by the actor => flag must be set)
 // ================================================================================================
 
@@ -1164,7 +1263,7 @@ std::string plan_trigger(const Plan &p) {
 }
 
 bool is_known_property(const std::string &prop) {
-    static const char *P[] = {"C01", "C02", "C03", "C04", "C05", "C06", "C07", "C08", "C09", "C10", "C11", "C14", "C15", "C16"};
+    static const char *P[] = {"C01", "C02", "C03", "C04", "C05", "C06", "C07", "C08", "C09", "C10", "C11", "C14", "C15", "C16", "C18"};
     for (auto q : P) if (prop == q) return true;
     return false;
 }
@@ -1180,6 +1279,7 @@ bool generate_plan(const std::string &prop, uint64_t seed, Plan &out) {
     else if (prop == "C16") c16_plan(rng, out);
     else if (prop == "C15") c15_plan(rng, out);
     else if (prop == "C08") c08_plan(rng, out, seed);
+    else if (prop == "C18") c18_plan(rng, out);
     else if (prop == "C14") c14_plan(rng, out);
     else if (prop == "C07") { if (seed % 4 == 3) { chaos_plan(rng, out, "C07"); out.cfg.set("res_decomp", 1); if (rng.coin()) { static const long B[] = {1024, 4096, 65536}; out.cfg.set("bomb_limit", B[rng.below(3)]); } } else c07_plan(rng, out, seed / 4); }
     else return false;
@@ -1260,6 +1360,7 @@ Verdict evaluate_plan(const Plan &p, Agg *agg) {
     }
     if (prop == "C15") { eval_c15(p, v, agg); return v; }
     if (prop == "C08") { eval_c08(p, v, agg); return v; }
+    if (prop == "C18") { eval_c18(p, v, agg); return v; }
     if (prop == "C14") { eval_c14(p, v, agg); return v; }
     if (prop == "C07") {
         RunResult r; execute_plan(p, r); note_run(r, p, v, agg);
